@@ -286,7 +286,14 @@ func judgeC06(c C06Case, rep c06Reply, verdict string) string {
 		return fmt.Sprintf("%d successful Next/Decode calls on %d input bytes: values are produced without consuming input\n%s", rep.Next, len(c.Input), desc())
 	}
 	if rep.Nanos > int64(5*time.Second) {
-		return fmt.Sprintf("one call sequence took %.1fs on %d input bytes\n%s", float64(rep.Nanos)/1e9, len(c.Input), desc())
+		// wall-clock time is only a signal: confirm on a second run (the machine
+		// may simply be busy); a slowness that does not reproduce is counted, not reported
+		again, v2 := c06Exec(c)
+		if v2 == "" && again.Nanos <= int64(5*time.Second) {
+			st.Discard("slow-once-not-reproduced")
+			return ""
+		}
+		return fmt.Sprintf("one call sequence took %.1fs (and %.1fs on a second run) on %d input bytes\n%s", float64(rep.Nanos)/1e9, float64(again.Nanos)/1e9, len(c.Input), desc())
 	}
 	return ""
 }
